@@ -122,8 +122,20 @@ def run(tier):
         if tag.startswith("BIG"):
             parts = [("16 KiB", "", 16384), ("1000", "", 1000), ("4096", "", 4096)]
             ones = rnd.sample(range(1, bl), 12)
+            # a single cut inside the multipart framing (delimiter line or part header): the unfinished header is carried
+            # over and the rest of the response - far more than one 32 KiB block - arrives in one call
+            fr = fe[cutr].get("framing", []) if len(fe) > cutr else []
+            for (a, z) in fr:
+                for c in sorted({a + 1, a + 3, (a + z) // 2, z - 3, z - 1}):
+                    if 0 < c < bl:
+                        ones.append(c)
             for c in ones:
                 parts.append(("cut %d" % c, "cuts=%d" % c, 0))
+            # ... and the same with the remainder in transport-sized (16 KiB) pieces
+            for (a, z) in fr[:2]:
+                c = (a + z) // 2
+                if 0 < c < bl:
+                    parts.append(("cut %d then 16 KiB pieces" % c, "cuts=" + ",".join(str(x) for x in range(c, bl, 16384)), 0))
             members = []
             for pi, (pname, popt, frag) in enumerate(parts):
                 sc = delta.Scenario("f%d-p%d" % (fi, pi), wd, B, T, limit=-1, frag=frag, rounds=1, final=False, fetch_opts=(opts + " " + popt).strip(), name="%s: %s" % (tag, pname))
